@@ -185,6 +185,8 @@ const char* String::findLast(const char* in, const char* str)
     if(!match)
       return result;
     result = match;
+    if(!*match)
+      return result;
     match = strstr(match + 1, str);
   }
 }
